@@ -300,6 +300,16 @@ func (u *Universe) GenOp(rng *rand.Rand, m *Model, o GenOpts) *Op {
 				op.Digest = "sha256:short"
 			case 4:
 				op.MediaType = ""
+			case 5:
+				// nothing is sent although the descriptor names real content (often content the
+				// repository already holds): refused, and what is stored stays as it was
+				if r := m.Repos[repo]; r != nil && len(r.Blobs) > 0 && rng.IntN(2) == 0 {
+					have := r.Blobs[pick(rng, sortedKeys(r.Blobs))]
+					op.Digest, op.Size = Digest(have), int64(len(have))
+				}
+				if op.Size > 0 {
+					op.Data = []byte{}
+				}
 			}
 			return op
 		case k < 22:
@@ -379,6 +389,19 @@ func (u *Universe) genWriterOp(rng *rand.Rand, m *Model, repo string, o GenOpts)
 	for h := range m.Handles {
 		if s := m.SessionOf(h); s != nil && !s.Dead {
 			live = append(live, h)
+		}
+	}
+	// now and then: commit an already committed session once more (a retried final request)
+	if rng.IntN(8) == 0 {
+		var done []int
+		for h := range m.Handles {
+			if s := m.SessionOf(h); s != nil && s.Committed != "" {
+				done = append(done, h)
+			}
+		}
+		if len(done) > 0 {
+			h := pick(rng, done)
+			return &Op{Kind: "W.Commit", H: h, Digest: m.SessionOf(h).Committed}
 		}
 	}
 	if len(live) == 0 || rng.IntN(6) == 0 && len(m.Handles) < 12 {
